@@ -30,22 +30,39 @@ pub fn run_command_line(sh: &mut Shell, line: &str, tty: bool,
     let mut cr_list = Vec::new();
     let mut status = 0;
     let mut sep = String::new();
+    #[cfg(cicada_verif)]
+    let vdepth = crate::verif_hooks::depth_inc();
+    #[cfg(cicada_verif)]
+    crate::verif_hooks::event("list_begin", &[("d", vdepth.to_string())]);
     for token in parsers::parser_line::line_to_cmds(line) {
         if token == ";" || token == "&&" || token == "||" {
             sep = token.clone();
+            #[cfg(cicada_verif)]
+            crate::verif_hooks::event("list_op", &[("d", vdepth.to_string()), ("op", crate::verif_hooks::jstr(&sep))]);
             continue;
         }
         if sep == "&&" && status != 0 {
+            #[cfg(cicada_verif)]
+            crate::verif_hooks::event("list_skip", &[("d", vdepth.to_string()), ("status", status.to_string())]);
             break;
         }
         if sep == "||" && status == 0 {
+            #[cfg(cicada_verif)]
+            crate::verif_hooks::event("list_skip", &[("d", vdepth.to_string()), ("status", status.to_string())]);
             break;
         }
         let cmd = token.clone();
         let cr = run_proc(sh, &cmd, tty, capture);
         status = cr.status;
         sh.previous_status = status;
+        #[cfg(cicada_verif)]
+        crate::verif_hooks::event("list_run", &[("d", vdepth.to_string()), ("status", status.to_string())]);
         cr_list.push(cr);
+    }
+    #[cfg(cicada_verif)]
+    {
+        crate::verif_hooks::event("list_end", &[("d", vdepth.to_string()), ("prev_status", sh.previous_status.to_string())]);
+        crate::verif_hooks::depth_dec();
     }
     cr_list
 }
